@@ -34,6 +34,8 @@ def shards(tier, seed):
     for fk in FK:
         for D in Ds:
             out.append(dict(id="C14/logfactor/%s/D%d" % (fk, D), part="logfactor", fk=fk, D=D, cost=D, facts=dict(fk=fk, D=D)))
+        if tier == "quick":
+            out.append(dict(id="C14/logfactor/%s/D5.large" % fk, part="logfactor", fk=fk, D=5, large=True, cost=8, facts=dict(fk=fk, D=5)))
     for kind in objs.COND_KINDS:
         for Dx in Ds[:3]:
             for Dy in Ds[:3]:
@@ -71,7 +73,7 @@ def run_logfactor(shard, ctx):
     fk, D = shard["fk"], shard["D"]
     vis = [0, 1, 100] if tier == "quick" else [0, 1, 2, 100, 101]
     for mk in MK:
-        for R in BOUNDS[tier]["R"]:
+        for R in (BOUNDS[tier]["R"] if not shard.get("large") else [5]):
             for Rf in sorted({1, R}):
                 for vi in vis:
                     if not ctx.case(dict(mk=mk, R=R, Rf=Rf, vi=vi)):
